@@ -63,9 +63,167 @@ Section C07.
     verifies (st_entries st) b -> cps_valid st b -> fork St P st k = inr st' -> Forall (local_op St) ops ->
     let c := snd (fst (run_ops b (st', new_cursor St r b pin) ops)) in
     c_tick c <= k + 1 /\ replay (st_entries st) b (c_tick c) = (c_ws c, None).
+
+  Notation add_checkpoint := (add_checkpoint St P root p_digest_field p_digest_calc p_decision).
+  Notation restore_base := (restore_base St P root).
+  Notation live_run := (live_run St P apply root commit_hash p_digest_field p_policy p_decision).
+  Notation base_ok := (base_ok St P root).
+  Notation same_but_roots := (same_but_roots St root).
+  Notation RootCollision := (RootCollision St root).
+
+  (* checkpoint_sound: a checkpoint accepted by add_checkpoint for tick t agrees with the replayed state of tick t
+     on warp, tick history artifacts, last snapshot, materialization, tx counter, and on the ROOTS of its graph
+     state and of its U0 state (the code compares roots, not graphs) ... *)
+  Theorem checkpoint_sound : forall (st : @store St P) (b : @wstate St) t hash cw st' w,
+    verifies (st_entries st) b -> base_ok st b ->
+    add_checkpoint st t hash cw = inr st' ->
+    replay (st_entries st) b t = (w, None) ->
+    t <= st_len St P st /\ hash = ws_root St root cw /\ same_but_roots cw w.
+  Proof. exact (checkpoint_sound_lemma St P apply root commit_hash p_digest_field p_digest_calc p_policy p_decision). Qed.
+  Check checkpoint_sound : forall (st : @store St P) (b : @wstate St) t hash cw st' w,
+    verifies (st_entries st) b -> base_ok st b ->
+    add_checkpoint st t hash cw = inr st' ->
+    replay (st_entries st) b t = (w, None) ->
+    t <= st_len St P st /\ hash = ws_root St root cw /\ same_but_roots cw w.
+
+  (* ... hence it IS that state, or the state root has a collision. *)
+  Theorem checkpoint_sound_state : forall (St_eq_dec : forall x y : St, {x = y} + {x <> y}) (cw w : @wstate St),
+    same_but_roots cw w -> cw = w \/ RootCollision.
+  Proof. exact (same_roots_eq_or_collision St root). Qed.
+  Check checkpoint_sound_state : forall (St_eq_dec : forall x y : St, {x = y} + {x <> y}) (cw w : @wstate St),
+    same_but_roots cw w -> cw = w \/ RootCollision.
+
+  (* Path independence with checkpoints of ARBITRARY content offered to add_checkpoint at any point of the run. *)
+  Theorem seek_path_independent_foreign_cps :
+    forall (St_eq_dec : forall x y : St, {x = y} + {x <> y}) (st : @store St P) (b : @wstate St) r pin ops,
+    base_ok st b -> verifies (st_entries st) b -> cps_valid st b ->
+    (let c := snd (fst (run_ops b (st, new_cursor St r b pin) ops)) in
+     c_tick c <= st_len St P st /\ replay (st_entries st) b (c_tick c) = (c_ws c, None)) \/ RootCollision.
+  Proof. exact (seek_path_independent_foreign_lemma St P apply root commit_hash p_digest_field p_digest_calc p_policy p_decision). Qed.
+  Check seek_path_independent_foreign_cps :
+    forall (St_eq_dec : forall x y : St, {x = y} + {x <> y}) (st : @store St P) (b : @wstate St) r pin ops,
+    base_ok st b -> verifies (st_entries st) b -> cps_valid st b ->
+    (let c := snd (fst (run_ops b (st, new_cursor St r b pin) ops)) in
+     c_tick c <= st_len St P st /\ replay (st_entries st) b (c_tick c) = (c_ws c, None)) \/ RootCollision.
+
+  (* The `target+1` lookup of restore_replay_base picks the LATEST checkpoint at or before the target, U0 if none. *)
+  Theorem restore_base_nearest : forall (st : @store St P) (b : @wstate St) target w start,
+    sorted (V := N * @wstate St) N.compare (st_cps st) -> target < u64_max ->
+    restore_base st b target = inr (w, start) ->
+    start <= target /\
+    (forall t' c', In (t', c') (st_cps st) -> t' <= target -> t' <= start) /\
+    (start = 0 /\ w = base_from_initial St b \/ exists hash, In (start, (hash, w)) (st_cps st)).
+  Proof. exact (restore_base_nearest_lemma St P root). Qed.
+  Check restore_base_nearest : forall (st : @store St P) (b : @wstate St) target w start,
+    sorted (V := N * @wstate St) N.compare (st_cps st) -> target < u64_max ->
+    restore_base st b target = inr (w, start) ->
+    start <= target /\
+    (forall t' c', In (t', c') (st_cps st) -> t' <= target -> t' <= start) /\
+    (start = 0 /\ w = base_from_initial St b \/ exists hash, In (start, (hash, w)) (st_cps st)).
+
+  (* Appending an entry keeps every checkpoint valid and every earlier replay unchanged. *)
+  Theorem append_preserves : forall (st : @store St P) (b : @wstate St) e,
+    cps_valid st b -> cps_valid (append St P st e) b /\
+    forall t, t <= st_len St P st -> replay (st_entries (append St P st e)) b t = replay (st_entries st) b t.
+  Proof. exact (append_preserves_lemma St P apply root commit_hash p_digest_field p_digest_calc p_policy p_decision). Qed.
+  Check append_preserves : forall (st : @store St P) (b : @wstate St) e,
+    cps_valid st b -> cps_valid (append St P st e) b /\
+    forall t, t <= st_len St P st -> replay (st_entries st ++ [e]) b t = replay (st_entries st) b t.
+
+  (* "... and equals what the live runtime held at t": the history recorded by a live run (entry = patch, live
+     post-state root, commit hash over the previous tip, receipt, outputs) verifies, and replaying it to tick t
+     yields the live graph state after t commits. *)
+  Theorem live_run_replays : forall s ps es ss (b : @wstate St),
+    live_run s 0 None ps = Some (es, ss) ->
+    Forall (fun po => p_digest_calc (fst po) = p_digest_field (fst po)) ps -> lenN ps < u64_max -> ws_init b = s ->
+    verifies es b /\
+    forall t, t <= lenN es -> ws_state (fst (replay es b t)) = nth (N.to_nat t) (s :: ss) s.
+  Proof. exact (live_run_replays_lemma St P apply root commit_hash p_digest_field p_digest_calc p_policy p_decision). Qed.
+  Check live_run_replays : forall s ps es ss (b : @wstate St),
+    live_run s 0 None ps = Some (es, ss) ->
+    Forall (fun po => p_digest_calc (fst po) = p_digest_field (fst po)) ps -> lenN ps < u64_max -> ws_init b = s ->
+    verifies es b /\
+    forall t, t <= lenN es -> ws_state (fst (replay es b t)) = nth (N.to_nat t) (s :: ss) s.
 End C07.
 
 Print Assumptions seek_path_independent.
 Print Assumptions replay_prefix.
 Print Assumptions fork_faithful.
 Print Assumptions fork_seek_faithful.
+Print Assumptions checkpoint_sound.
+Print Assumptions checkpoint_sound_state.
+Print Assumptions seek_path_independent_foreign_cps.
+Print Assumptions restore_base_nearest.
+Print Assumptions append_preserves.
+Print Assumptions live_run_replays.
+
+(* ------------------------------------------------------------------ concrete instance (slot maps) *)
+
+Definition ex_init : slotmap := [(1, 1)].
+Definition ex_patch (ws : list (N * option N)) (i : N) : spatch * N :=
+  ({| sp_writes := ws; sp_field := 100 + i; sp_calc := 100 + i; sp_policy := 0; sp_decision := 200 + i |}, i).
+Definition ex_ps : list (spatch * N) :=
+  [ex_patch [(2, Some 1); (3, Some 5)] 0; ex_patch [(3, Some 6); (4, Some 2)] 1;
+   ex_patch [(2, None); (5, Some 9)] 2; ex_patch [(3, Some 7)] 3].
+Definition ex_h : list s_entry := match s_live_run ex_init 0 None ex_ps with Some (es, _) => es | None => [] end.
+Definition ex_b : s_wstate := s_base ex_init 1.
+Definition ex_st0 : s_store := {| st_u0 := 1; st_boundary := sroot ex_init; st_entries := ex_h; st_cps := [] |}.
+Definition ex_cp (st : s_store) (t : N) : s_store :=
+  let w := fst (s_replay ex_h ex_b t) in
+  match s_add_checkpoint st t (sroot (ws_state w)) w with inr st' => st' | inl _ => st end.
+Definition ex_st : s_store := ex_cp (ex_cp ex_st0 3) 1.
+Definition ex_ops : list (op slotmap) :=
+  [OSeek _ 4; OSeek _ 1; OSeek _ 2; OCheckpointHere _; OSetMode _ StepBack; OStep _; OSeek _ 3; OSeek _ 0;
+   OSetMode _ Play; OStep _; OStep _; OSeek _ 9; OSetPin _ 2; OSeek _ 4; OSeek _ 2].
+
+(* Non-vacuity: a 4-tick history, checkpoints at ticks 1 and 3 (accepted by add_checkpoint), and a run that seeks
+   forward, backward onto and across checkpoints, steps in two modes, checkpoints from the cursor and hits two
+   failing seeks; the hypotheses of seek_path_independent hold and the run is non-trivial. *)
+Example c07_nonvacuous :
+  base_from_initial slotmap ex_b = ex_b /\
+  verifies slotmap spatch sapply sroot scommit sp_field sp_calc sp_policy sp_decision ex_h ex_b /\
+  cps_valid slotmap spatch sapply sroot scommit sp_field sp_calc sp_policy sp_decision ex_st ex_b /\
+  map fst (st_cps ex_st) = [1; 3] /\ Forall (local_op slotmap) ex_ops /\
+  (let '(st', c, outs) := s_run_ops ex_b (ex_st, new_cursor slotmap Reader ex_b 4) ex_ops in
+   c_tick c = 2 /\ ws_state (c_ws c) = [(1, 1); (2, 1); (3, 6); (4, 2)] /\ map fst (st_cps st') = [1; 2; 3] /\
+   outs = [RSeek None; RSeek None; RSeek None; RCp None; RUnit; RStep (inr Seeked); RSeek None; RSeek None; RUnit;
+           RStep (inr Advanced); RStep (inr Advanced); RSeek (Some (SPinned 9 4)); RUnit;
+           RSeek (Some (SPinned 4 2)); RSeek None]).
+Proof.
+  split; [reflexivity|]. split; [vm_compute; reflexivity|]. split.
+  - intros t hash cw Hin. vm_compute in Hin.
+    destruct Hin as [E|[E|[]]]; inversion E; subst; (split; [vm_compute; discriminate|vm_compute; reflexivity]).
+  - split; [vm_compute; reflexivity|]. split; [repeat constructor|]. vm_compute. repeat split; reflexivity.
+Qed.
+
+(* F12 (DESIGN section 6): the invariant needs the history to verify.  On a history whose entry 2 carries a wrong
+   state root, a forward seek from tick 1 fails AFTER mutating the cursor state in place: the tick is unchanged but
+   the state is no longer the replay of that tick.  (The code documents the cursor as undefined after a SeekError;
+   tampered histories are outside C07's quantifier.) *)
+Definition ex_bad_h : list s_entry :=
+  match ex_h with
+  | e0 :: e1 :: e2 :: r =>
+      e0 :: e1 :: {| e_patch := e_patch e2; e_root := e_root e2 + 1; e_pdig := e_pdig e2; e_commit := e_commit e2;
+                     e_parents := e_parents e2; e_receipt := e_receipt e2; e_out := e_out e2 |} :: r
+  | l => l
+  end.
+Theorem failed_seek_state_partial :
+  exists (st : s_store) (b : s_wstate) (c : s_cursor) (target : N),
+    s_replay (st_entries st) b (c_tick c) = (c_ws c, None) /\
+    let '(c', e) := s_seek_to st b c target in
+    e = Some (SStateRoot 2) /\ c_tick c' = c_tick c /\
+    s_replay (st_entries st) b (c_tick c') <> (c_ws c', None) /\
+    lenN (ws_hist (c_ws c')) = 2.
+Proof.
+  exists {| st_u0 := 1; st_boundary := sroot ex_init; st_entries := ex_bad_h; st_cps := [] |}, ex_b,
+         (fst (s_seek_to ex_st0 ex_b (new_cursor slotmap Reader ex_b 4) 1)), 4.
+  vm_compute. repeat split; try reflexivity. discriminate.
+Qed.
+Check failed_seek_state_partial :
+  exists (st : s_store) (b : s_wstate) (c : s_cursor) (target : N),
+    s_replay (st_entries st) b (c_tick c) = (c_ws c, None) /\
+    let '(c', e) := s_seek_to st b c target in
+    e = Some (SStateRoot 2) /\ c_tick c' = c_tick c /\
+    s_replay (st_entries st) b (c_tick c') <> (c_ws c', None) /\
+    lenN (ws_hist (c_ws c')) = 2.
+Print Assumptions failed_seek_state_partial.
